@@ -520,24 +520,37 @@ def run_kani_file(unit, spec, stage_dir, scratch, tier, prop):
     os.makedirs(wd, exist_ok=True)
     f = os.path.join(wd, name + ".rs")
     open(f, "w").write(text)
-    cmd = ["kani", f, "--harness-timeout", f"{spec.get('timeout', 600)}s", "-Z", "unstable-options"]
-    wanted = [h["name"] for h in spec.get("harness", []) if tier_ok(h.get("tier", "quick"), tier)]
+    wanted = [h["name"] for h in spec.get("harness", []) if tier_ok(h.get("tier", "quick"), tier)
+              and prop in h.get("serves", spec.get("serves", []))]
+    jobs = max(1, min(len(wanted), int(os.environ.get("VERIF_KANI_JOBS", "12"))))
+    cmd = ["kani", f, "--harness-timeout", f"{spec.get('timeout', 600)}s", "-Z", "unstable-options",
+           "-j", str(jobs), "--output-format", "terse", "--output-into-files"]
     if len(wanted) < len(spec.get("harness", [])):
         for w in wanted:
             cmd += ["--harness", "harness::" + w]
         cmd += ["--exact"]
-    rc, out, err, secs, to = run(cmd, cwd=wd, timeout=spec.get("timeout", 600) * 3 + 300)
+    kenv = {"RUSTFLAGS": f"--edition {spec['edition']}"} if spec.get("edition") else None
+    rdir = os.path.join(wd, "result_output_dir")
+    if os.path.isdir(rdir):
+        for fn in os.listdir(rdir):
+            if fn.split("::")[-1] in wanted:
+                os.remove(os.path.join(rdir, fn))
+    rounds = (len(wanted) + jobs - 1) // jobs
+    rc, out, err, secs, to = run(cmd, cwd=wd, timeout=spec.get("timeout", 600) * (rounds + 1) + 300, env=kenv,
+                                 mem_kb=int(os.environ.get("VERIF_KANI_MEM_KB", str(40 * 1024 * 1024))))
     if "error: could not compile" in err or "error[E" in err or (rc != 0 and "Checking harness" not in out):
         raise Undecided(f"kani-file {name}: build failed:\n{(out + err)[-2500:]}")
-    blocks = re.split(r"(?m)^Checking harness (\S+?)\.\.\.\s*$", out)
     res = {}
-    for k in range(1, len(blocks), 2):
-        p = os.path.join(wd, f"{name}.{blocks[k].split('::')[-1]}.result")
-        open(p, "w").write(blocks[k + 1])
-        res[blocks[k].split("::")[-1]] = p
+    if os.path.isdir(rdir):
+        for fn in os.listdir(rdir):
+            hn = fn.split("::")[-1]
+            if hn in wanted:
+                p = os.path.join(wd, f"{name}.{hn}.result")
+                shutil.copyfile(os.path.join(rdir, fn), p)
+                res[hn] = p
     obs = []
     for h in spec.get("harness", []):
-        if not tier_ok(h.get("tier", "quick"), tier):
+        if h["name"] not in wanted:
             continue
         o = {"id": f"kanifile:{unit['name']}/{name}:{h['name']}", "harness": h["name"], "unit": unit["name"], "serves": h.get("serves", spec.get("serves", [])),
              "kind": h.get("kind", "proof"), "bound": h.get("bound", ""), "what": h.get("what", ""), "engine": "Kani 0.68 / CBMC 6.11 (single file of extracted regions)"}
@@ -560,7 +573,7 @@ def run_kani_file(unit, spec, stage_dir, scratch, tier, prop):
                 o.update({"ok": False, "undecided": True, "messages": ["no verdict: " + r["tail"][-300:]]})
         obs.append(o)
     info = {"file": f, "items": ex.log["items"], "rewrites": ex.log["rewrites"], "local_rewrites": ex.log["local_rewrites"],
-            "assumptions_scan": [], "wall_s": secs, "cmd": " ".join(cmd)}
+            "assumptions_scan": [], "wall_s": secs, "cmd": " ".join(cmd), "env": kenv}
     return obs, info
 
 
@@ -569,7 +582,7 @@ def kani_file_playback(ob, info, scratch):
     f = info["file"]
     wd = os.path.dirname(f)
     cmd = ["kani", f, "--harness", ob["harness"], "-Z", "concrete-playback", "--concrete-playback=print"]
-    rc, out, err, secs, to = run(cmd, cwd=wd, timeout=900)
+    rc, out, err, secs, to = run(cmd, cwd=wd, timeout=900, env=info.get("env"))
     m = re.search(r"```\s*\n(.*?#\[test\].*?)```", out, re.S)
     res = {"generated": bool(m), "cmd": " ".join(cmd)}
     if not m:
@@ -665,10 +678,16 @@ def manifest_level(prop):
     return "other"
 
 
+_NATIVE_CACHE = {}
+
+
 def native_replay(unit, rp, stage_dir, scratch):
     """Run a small native crate (path-dependent on the staged repo) that searches for a failing input of the real code."""
     src = os.path.join(unit["dir"], rp["crate"])
     dst = os.path.join(scratch, "native-" + unit["name"] + "-" + os.path.basename(rp["crate"]))
+    if dst in _NATIVE_CACHE:
+        return _NATIVE_CACHE[dst]
+    shutil.rmtree(dst, ignore_errors=True)
     shutil.copytree(src, dst)
     for root, _, fs in os.walk(dst):
         for fn in fs:
@@ -680,9 +699,11 @@ def native_replay(unit, rp, stage_dir, scratch):
     if os.path.exists(lock):
         shutil.copy(lock, os.path.join(dst, "Cargo.lock"))
     rc, out, err, secs, to = run(["cargo", "run", "--offline", "--quiet", "--target-dir", os.path.join(scratch, "target-native")],
-                                 cwd=dst, timeout=rp.get("timeout", 600))
-    return {"cmd": "cargo run --offline (crate " + rp["crate"] + ", path dependency on the staged /repo)", "rc": rc,
-            "output_tail": (out + "\n" + err)[-3000:], "found_failing_input": "FAILING-INPUT" in out, "timed_out": to}
+                                 cwd=dst, timeout=rp.get("timeout", 600), env={"RUST_BACKTRACE": "0"})
+    res = {"cmd": "cargo run --offline (crate " + rp["crate"] + ", path dependency on the staged /repo)", "rc": rc,
+           "output_tail": (out + "\n" + err)[-3000:], "found_failing_input": "FAILING-INPUT" in out, "timed_out": to}
+    _NATIVE_CACHE[dst] = res
+    return res
 
 
 def main(argv):
@@ -802,7 +823,12 @@ def check(prop, tier, seed, units, scratch, t0, args):
             try:
                 r = f.result()
             except Undecided as e:
+                # a job that could not be built / extracted is an undecided obligation of its own; the other jobs'
+                # verdicts (including violations) are still reported
                 undec.append(str(e))
+                jid = f"{tag[0]}:{tag[1]['name']}/{tag[2]['name']}" if tag[0] != "kani" else f"kani:{tag[1]}:<build>"
+                all_obs.append({"id": jid + ":<job>", "harness": "<job>", "ok": False, "undecided": True, "serves": [prop], "kind": "bounded",
+                                "engine": tag[0], "messages": [str(e)[:1500]], "what": "job could not be built or extracted", "bound": ""})
                 continue
             if tag[0] == "verus":
                 obs, info = r
@@ -820,8 +846,6 @@ def check(prop, tier, seed, units, scratch, t0, args):
             else:
                 infos["kani"][tag[1]] = r
                 all_obs += tag[2]
-        if undec:
-            raise Undecided("; ".join(undec))
     # classify
     findings, _fixed = load_known()
     known_for_prop = [f for f in findings if f["property"] == prop]
@@ -841,7 +865,8 @@ def check(prop, tier, seed, units, scratch, t0, args):
             hits = []
             for c in fcs:
                 k = [f for f in known_for_prop if f["obligation"].split("/")[0] == o["harness"] and
-                     ("/" not in f["obligation"] or c["desc"].startswith(f["obligation"].split("/", 1)[1]))]
+                     ("/" not in f["obligation"] or c["desc"].strip('"').startswith(f["obligation"].split("/", 1)[1])
+                      or f["obligation"].split("/", 1)[1] in c.get("loc", ""))]
                 if k:
                     hits.append((k[0], c))
                 else:
